@@ -109,8 +109,10 @@ func c20Run(input string) string {
 	}
 	// definition
 	var descs []interface{}
+	descAttr := map[string]string{}
 	for _, d := range strings.Split(strings.TrimPrefix(parts[0], "D:"), ";") {
 		f := strings.Split(d, "/")
+		descAttr[f[0]] = f[3]
 		desc := map[string]interface{}{"id": f[0], "name": f[0], "purpose": "p",
 			"schema": []interface{}{map[string]interface{}{"uri": "https://www.w3.org/2018/credentials#VerifiableCredential"}}}
 		if f[1] != "-" {
@@ -126,9 +128,13 @@ func c20Run(input string) string {
 			field["filter"] = map[string]interface{}{"type": "string", "const": f[4]}
 		case "p":
 			field["filter"] = map[string]interface{}{"type": "string", "pattern": "^" + f[4]}
-		case "m":
+		case "m", "q":
 			n, _ := strconv.Atoi(f[4])
 			field["filter"] = map[string]interface{}{"type": "number", "minimum": n}
+			if f[2] == "q" {
+				// the verifier only learns WHETHER the value passes the filter
+				field["predicate"] = "required"
+			}
 		}
 		if f[2] == "n" {
 			desc["constraints"] = map[string]interface{}{"subject_is_issuer": "preferred"}
@@ -205,12 +211,22 @@ func c20Run(input string) string {
 			idx, _ = strconv.Atoi(strings.TrimSuffix(p[i+1:], "]"))
 		}
 		cid := "?"
+		shown := "?"
 		if idx >= 0 && idx < len(vp.Credentials()) {
 			if vc, ok := vp.Credentials()[idx].(*verifiable.Credential); ok {
 				cid = strings.TrimPrefix(vc.ID, "urn:cred:")
+				// tmp ids of rewritten (predicate / limited) credentials keep the original id as prefix or not at all
+				if i := strings.Index(vc.ID, "urn:cred:"); i < 0 {
+					cid = "tmp"
+				}
+				if v, has := vc.CustomFields[descAttr[m.ID]]; has {
+					shown = fmt.Sprint(v)
+				} else {
+					shown = "absent"
+				}
 			}
 		}
-		pairs = append(pairs, m.ID+":"+cid)
+		pairs = append(pairs, m.ID+":"+cid+"["+shown+"]")
 	}
 	sort.Strings(pairs)
 	holder := "vp " + strings.Join(pairs, ",")
@@ -256,7 +272,7 @@ func c20GenReq(r *Rng, depth int) string {
 			kv = fmt.Sprintf(";min=%d;max=%d", 1, 1+r.N(3))
 		}
 	}
-	if depth > 0 && r.N(3) == 0 {
+	if depth > 0 && r.N(2) == 0 {
 		n := 2 + r.N(2)
 		var kids []string
 		for i := 0; i < n; i++ {
@@ -268,9 +284,9 @@ func c20GenReq(r *Rng, depth int) string {
 }
 
 func c20Gen(r *Rng, tier string) []string {
-	n := 3000
+	n := 6000
 	if tier == "thorough" {
-		n = 60000
+		n = 100000
 	}
 	attrs := []string{"a0", "a1", "a2", "a3"}
 	var out []string
@@ -287,19 +303,19 @@ func c20Gen(r *Rng, tier string) []string {
 			if groups == "" {
 				groups = []string{"A", "B", "C"}[r.N(3)]
 			}
-			kind := []string{"e", "c", "c", "p", "m", "c"}[r.N(6)]
+			kind := []string{"e", "c", "c", "p", "m", "c", "q"}[r.N(7)]
 			if r.N(25) == 0 {
 				kind = "n"
 			}
 			val := []string{"x", "x", "x", "y", "xy"}[r.N(5)]
-			if kind == "m" {
+			if kind == "m" || kind == "q" {
 				val = strconv.Itoa(5 + r.N(3)*5)
 			}
 			ds = append(ds, fmt.Sprintf("d%d/%s/%s/%s/%s", d, groups, kind, attrs[r.N(len(attrs))], val))
 		}
 		req := "-"
 		if r.N(5) > 0 {
-			k := 1 + r.N(2)
+			k := 1 + r.N(3)
 			var rs []string
 			for j := 0; j < k; j++ {
 				rs = append(rs, c20GenReq(r, 2))
